@@ -60,8 +60,9 @@ pub fn ascii_deco_strings() -> BoxedStrategy<DecoStrings> {
         (s(), s()),
         (s(), s()),
         (p(), p(), p(), p(), p()),
+        prop_oneof![4 => Just(0u8), 2 => Just(1u8), 1 => Just(2u8), 1 => Just(4u8)],
     )
-        .prop_map(|(link, em, strong, strike, code, img, sup, (hdr_unit, hdr_tail, quote, ul, ol_tail))| DecoStrings {
+        .prop_map(|(link, em, strong, strike, code, img, sup, (hdr_unit, hdr_tail, quote, ul, ol_tail), ol_style)| DecoStrings {
             link,
             em,
             strong,
@@ -74,6 +75,7 @@ pub fn ascii_deco_strings() -> BoxedStrategy<DecoStrings> {
             quote,
             ul,
             ol_tail,
+            ol_style,
         })
         .boxed()
 }
